@@ -55,6 +55,12 @@ USE_NAMES = ["a", "A", "b", "c", "{A}", "{b}"]
 VALUES = ["x", "y", "", "$b", "$a", "$$b", "${B}x", "  x "]
 STEPS = [("d", n, v) for n in DEF_NAMES for v in VALUES] + \
         [("u", n) for n in USE_NAMES]
+# more steps, used in the length<=2 enumeration and in random histories
+# only (the length-3 enumeration would grow too much): a '$' construct in
+# the name position, values that start with a reference
+EXTRA_STEPS = [("d", "$b", "x"), ("d", "${a}", "y"), ("d", "$$a", "x"),
+               ("d", "a", "$b y"), ("d", "b", "${a}  z"), ("d", "c", ""),
+               ("d", "A", "$c"), ("d", "c", "$c tail"), ("u", "{c}x")]
 BOUND = {"quick": 2, "thorough": 3}
 RANDOM = {"quick": 4000, "thorough": 100000}
 
@@ -291,7 +297,7 @@ def run_case(ctx, schema, hook, steps_files, family, dirpath, loader=None):
 
 def random_case(rng):
     n = rng.randint(3, 6)
-    steps = [rng.choice(STEPS) if rng.random() < 0.8 else
+    steps = [rng.choice(STEPS + EXTRA_STEPS) if rng.random() < 0.8 else
              ("d", rng.choice(DEF_NAMES), rng.choice(VALUES))
              for _ in range(n)]
     arrs = list(arrangements(n))
@@ -322,7 +328,8 @@ def run_shard(ctx):
         idx = 0
         for n in range(1, BOUND[ctx.tier] + 1):
             arrs = list(arrangements(n))
-            for steps in itertools.product(STEPS, repeat=n):
+            alphabet = STEPS + EXTRA_STEPS if n <= 2 else STEPS
+            for steps in itertools.product(alphabet, repeat=n):
                 idx += 1
                 if not ctx.mine(idx):
                     continue
